@@ -1099,52 +1099,3 @@ Section Sound.
   Qed.
 End Sound.
 
-(** * Agreement with the model implies the specification
-    If the implementation's observations coincide with the model's (what [Check.model_agrees]
-    establishes for a case), the monitor accepts them: a case cannot at the same time agree
-    with the model and fail the specification (up to the final shutdown clause, which is
-    outside the model). *)
-From CM Require Import Lib.Wire Maintain.Check.
-
-Lemma list_eqb_eq {A} (eqb : A -> A -> bool) :
-  (forall x y, eqb x y = true -> x = y) -> forall a b, list_eqb eqb a b = true -> a = b.
-Proof.
-  intros H a. induction a as [|x a IH]; intros [|y b]; cbn; try discriminate; auto.
-  intros E. apply andb_true_iff in E as [E1 E2]. f_equal; auto.
-Qed.
-
-Lemma obs_eqb_eq a b : obs_eqb a b = true -> a = b.
-Proof.
-  unfold obs_eqb. rewrite !andb_true_iff. intros (((((((A1 & A2) & A3) & A4) & A5) & A6) & A7) & A8).
-  destruct a, b; cbn in *. f_equal.
-  - revert A1. apply list_eqb_eq. intros x y; apply cert_eqb_eq.
-  - revert A2. apply list_eqb_eq. intros x y; apply opt_cert_eqb_eq.
-  - revert A3. apply list_eqb_eq. intros x y; apply list_nat_eqb_eq.
-  - revert A4. apply list_eqb_eq. intros [x|] [y|]; cbn; try discriminate; auto.
-    intros E; apply Nat.eqb_eq in E; subst; auto.
-  - apply list_nat_eqb_eq; auto.
-  - apply list_nat_eqb_eq; auto.
-  - apply list_nat_eqb_eq; auto.
-  - apply eqb_prop; auto.
-Qed.
-
-Lemma replay_none_trace od idue k s i h :
-  replay od idue k s i h = None -> h = trace od idue k s (map fst h).
-Proof.
-  revert s i; induction h as [|[e o] r IH]; cbn; intros s i H; auto.
-  destruct (obs_eqb (observe k (step od idue s e)) o) eqn:E; [|discriminate].
-  apply obs_eqb_eq in E. subst o. f_equal. eapply IH; eauto.
-Qed.
-
-Theorem agreeing_case_satisfies_spec c :
-  model_agrees c = true ->
-  Forall (ev_ok (c_k c)) (map fst (c_hist c)) ->
-  spec_run (od_of c) (c_idue c) (c_k c) [] (c_obs0 c) (c_hist c) = true.
-Proof.
-  unfold model_agrees, first_diff. intros H Ev. apply andb_true_iff in H as [Wb H].
-  destruct (obs_eqb (observe (c_k c) (init_of c)) (c_obs0 c)) eqn:E0; [|discriminate].
-  apply obs_eqb_eq in E0.
-  destruct (replay (od_of c) (c_idue c) (c_k c) (init_of c) 1 (c_hist c)) eqn:R; [discriminate|].
-  apply replay_none_trace in R. rewrite <- E0, R.
-  apply spec_run_sound_init; auto.
-Qed.
